@@ -1497,7 +1497,7 @@ fn calculate_stableswap_d(
     let ann = calculate_ann(amp, n_coins)?;
 
     // Use newton_raphson_iterate for the approximation
-    let precision_threshold = Decimal256::one();
+    let precision_threshold = Decimal256::raw(1_000_000u128);
 
     newton_raphson_iterate(
         sum_pools,
